@@ -6,6 +6,7 @@
                                            (3 k path i payload)       a newly built object (no mutable parts) assigned to the i-th
                                                                       pointer field of the object at `path`
                                            (4 k path)                 the last pointer field of the object at `path` dropped (pop)
+                                           (5 fileidx args)           Pose.read of a seekable stream holding the file
    -> ( (handed? ...)  one flag per op: did it hand out a new Pose object
         (pose ...)     what every pose handed out holds at the end: () or (pose)
         (cells ...)    the cells each of them is made of
@@ -22,6 +23,7 @@ Definition gop_of_tree (files : list (list N)) (t : tree) : gop :=
   else if (kind =? 1)%Z then GEdit (t_nat (t_nth 1 t)) (t_nats (t_nth 2 t)) (fun _ => t_ns (t_nth 3 t))
   else if (kind =? 3)%Z then GAssign (t_nat (t_nth 1 t)) (t_nats (t_nth 2 t)) (t_nat (t_nth 3 t)) (t_ns (t_nth 4 t))
   else if (kind =? 4)%Z then GPop (t_nat (t_nth 1 t)) (t_nats (t_nth 2 t))
+  else if (kind =? 5)%Z then GReadS (nth (t_nat (t_nth 1 t)) files []) (t_rargs (t_nth 2 t))
   else GCopy (t_nat (t_nth 1 t)).
 Fixpoint run_flags (s : gstate) (ops : list gop) : list tree * gstate :=
   match ops with
